@@ -518,9 +518,13 @@ class CallSites:
             if est is not None:
                 pts &= est
         # shape invariant: a chunk of an indefinite (byte)string is a definite (byte)string
-        if isinstance(x, tuple) and x[0] == "ld" and isinstance(x[1], tuple) and x[1][0] == "idx":
-            tab = x[1][1]
-            if tab[0] == "call" and tab[1] in CHUNK_TABLES:
+        if isinstance(x, tuple) and x[0] == "ld" and isinstance(x[1], tuple):
+            # the slot may be addressed by index (`chunks[i]`) or through a walking pointer (`*chunk++`): either way the
+            # address is computed from the table the accessor returned
+            tab = x[1]
+            while isinstance(tab, tuple) and tab[0] in ("idx", "p"):
+                tab = tab[1]
+            if isinstance(tab, tuple) and tab[0] == "call" and tab[1] in CHUNK_TABLES:
                 t = self.T[CHUNK_TABLES[tab[1]]]
                 pts &= {p for p in DOMAIN if p[0] == t and p[3] == 0}
         # facts on the path so far
